@@ -185,15 +185,16 @@ Lemma schedule_dependence :
   refines_live (run_hist 1 1048576 hist_keys) (spec_hist hist_keys) = true.
 Proof. vm_compute. repeat split. Qed.
 
-(** 3: Index.DropMeasurement leaves the partition's series id set stale: the measurement is not
-    dropped when its later series are all dropped, and stays listed, also after reopen *)
+(** 3 (repaired: Partition.DropMeasurement now removes the dropped ids from the partition's series
+    id set): the measurement is dropped together with its last series and is no longer listed,
+    also after reopen.  Former refutation witness, now a positive example. *)
 Definition hist_meas : list op :=
   [OCreate [(6, (m0, [(k0, v0)]), 0%nat)]; ODropMeas m0; OSfDelete [6];
    OCreate [(7, (m0, [(k0, v1)]), 0%nat)]; ODropSeries 7 0%nat; ODropIfNone m0; OSfDelete [7]; OReopen].
-Lemma measurement_names_refuted :
+Lemma measurement_names_after_drop_measurement :
   let st := run_hist 1 5 hist_meas in let sp := spec_hist hist_meas in
-  refines_live st sp = false /\
-  str_mem m0 (i_meas st) = true /\ spec_meas sp true = [] /\ i_mseries st m0 = [].
+  i_meas st = [] /\ spec_meas sp true = [] /\ i_mseries st m0 = [] /\ i_set st = [] /\
+  i_set (run_hist 1 5 (firstn 3 hist_meas)) = [].
 Proof. vm_compute. repeat split. Qed.
 
 (** 4: a series dropped from the index whose id stays in the series file (another shard has it)
